@@ -13,6 +13,7 @@ mod h_conv;
 mod h_datetime;
 mod h_html;
 mod h_list;
+mod h_number;
 mod h_parse;
 mod h_prog;
 mod h_simplify;
@@ -53,6 +54,7 @@ const ENTRIES: &[(&str, Entry)] = &[
     ("h_c19_add", h_datetime::h_c19_add),
     ("h_c19_add_text", h_datetime::h_c19_add_text),
     ("h_c15_string", h_string::h_c15_string),
+    ("h_c14_integer", h_number::h_c14_integer),
     ("h_c10_parse", h_parse::h_c10_parse),
     ("h_c18_step", h_list::h_c18_step),
     ("h_c18_hist", h_list::h_c18_hist),
